@@ -292,6 +292,12 @@ func (fc *followerController) NewTerm(req *proto.NewTermRequest) (*proto.NewTerm
 	fc.status = proto.ServingStatus_FENCED
 	fc.closeStreamNoMutex(nil)
 
+	// Entries that were appended but not yet synced are part of the log: make them
+	// durable and visible first, so that the head we report is the true end of the log.
+	if err := fc.wal.Sync(context.Background()); err != nil {
+		return nil, err
+	}
+
 	lastEntryId, err := getLastEntryIdInWal(fc.wal)
 	if err != nil {
 		fc.log.Warn(
